@@ -44,6 +44,8 @@ type c08Spec struct {
 	Resumes    []c08Resume `json:"resumes"`
 	MaxBytes   int         `json:"max_bytes,omitempty"` // >0: small event store, early events get purged
 	Pad        int         `json:"pad,omitempty"`
+	Noise      bool        `json:"noise,omitempty"` // a second session shares the event store and is notified in between
+	JSON       bool        `json:"json,omitempty"`  // JSONResponse mode (standalone stream scenarios only)
 }
 
 func genC08(r *vh.Rand) c08Spec {
@@ -65,6 +67,10 @@ func genC08(r *vh.Rand) c08Spec {
 	if r.Chance(1, 6) {
 		s.Pad = 900
 		s.MaxBytes = r.Range(2, 5) * 1000
+	}
+	s.Noise = r.Chance(1, 3)
+	if s.Stream == "standalone" && r.Chance(1, 3) {
+		s.JSON = true
 	}
 	return s
 }
@@ -203,7 +209,7 @@ func runC08(c *vh.Case, spec c08Spec) {
 		log.Add("emit", "j", "result")
 		return &mcp.CallToolResult{Content: []mcp.Content{&mcp.TextContent{Text: "result" + pad}}}, nil
 	})
-	h := mcp.NewStreamableHTTPHandler(func(*http.Request) *mcp.Server { return server }, &mcp.StreamableHTTPOptions{EventStore: store})
+	h := mcp.NewStreamableHTTPHandler(func(*http.Request) *mcp.Server { return server }, &mcp.StreamableHTTPOptions{EventStore: store, JSONResponse: spec.JSON})
 	ip := &vhm.InProc{Handler: h}
 	hdr := map[string]string{"Content-Type": "application/json", "Accept": "application/json, text/event-stream"}
 	initMsg := fmt.Sprintf(`{"jsonrpc":"2.0","id":"init","method":"initialize","params":{"protocolVersion":%q,"capabilities":{},"clientInfo":{"name":"raw","version":"0"}}}`, spec.Version)
@@ -218,6 +224,43 @@ func runC08(c *vh.Case, spec c08Spec) {
 	ip.Do(ctx, "POST", "http://example.test/mcp", hdr, []byte(`{"jsonrpc":"2.0","method":"notifications/initialized"}`))
 	for ss := range server.Sessions() {
 		ssRef = ss
+	}
+	noiseDone := make(chan struct{})
+	closeNoise := func() {}
+	if spec.Noise {
+		// session B: same handler, same event store; it never attaches a stream, so everything sent to it is stored
+		hb := map[string]string{"Content-Type": "application/json", "Accept": "application/json, text/event-stream"}
+		st, rhb, _, err := ip.Do(ctx, "POST", "http://example.test/mcp", hb, []byte(strings.Replace(initMsg, `"init"`, `"initb"`, 1)))
+		if err != nil || st != 200 {
+			c.Inconclusive("initialize B: %d %v", st, err)
+			return
+		}
+		hb["Mcp-Session-Id"] = rhb.Get("Mcp-Session-Id")
+		hb["Mcp-Protocol-Version"] = spec.Version
+		ip.Do(ctx, "POST", "http://example.test/mcp", hb, []byte(`{"jsonrpc":"2.0","method":"notifications/initialized"}`))
+		closeNoise = func() {
+			<-noiseDone
+			ip.Do(ctx, "DELETE", "http://example.test/mcp", hb, nil)
+		}
+		var ssB *mcp.ServerSession
+		for ss := range server.Sessions() {
+			if ss != ssRef {
+				ssB = ss
+			}
+		}
+		go func() {
+			defer close(noiseDone)
+			if ssB == nil {
+				return
+			}
+			time.Sleep(ms(spec.GapMs) / 2)
+			for j := 1; j <= spec.K+3; j++ {
+				ssB.NotifyProgress(ctx, &mcp.ProgressNotificationParams{ProgressToken: "tokB", Progress: float64(j), Message: fmt.Sprintf("FOREIGN-b%d", j)})
+				time.Sleep(ms(spec.GapMs))
+			}
+		}()
+	} else {
+		close(noiseDone)
 	}
 
 	// exchange performs one HTTP exchange and reads complete SSE events until it is cut or the body ends.
@@ -365,6 +408,7 @@ func runC08(c *vh.Case, spec c08Spec) {
 	emu.Unlock()
 	if spec.Stream == "request" && nEmitted == 0 {
 		// the POST was cut before the server ever saw the request: nothing to decide
+		closeNoise()
 		ip.Do(ctx, "DELETE", "http://example.test/mcp", hdr, nil)
 		ip.Wait()
 		time.Sleep(11 * time.Second)
@@ -389,6 +433,7 @@ func runC08(c *vh.Case, spec c08Spec) {
 			}
 		}
 	}
+	closeNoise()
 	ip.Do(ctx, "DELETE", "http://example.test/mcp", hdr, nil)
 	ip.Wait()
 	time.Sleep(11 * time.Second)
@@ -509,7 +554,7 @@ func runC08(c *vh.Case, spec c08Spec) {
 			logged = append(logged, "result")
 		}
 	}
-	if spec.Stream == "request" && strings.Join(logged, ",") != strings.Join(em, ",") {
+	if strings.Join(logged, ",") != strings.Join(em, ",") {
 		c.Violate("stream-log-differs-from-emission", "messages stored for the stream %v differ from what the tool emitted %v", shorten(logged), shorten(em))
 		return
 	}
